@@ -819,7 +819,21 @@ class PDFDocument:
         factory = self.security_handler_registry.get(v)
         if factory is None:
             raise PDFEncryptionError("Unknown algorithm: param=%r" % param)
-        handler = factory(docid, param, password)
+        try:
+            handler = factory(docid, param, password)
+        except (
+            KeyError,
+            IndexError,
+            TypeError,
+            ValueError,
+            ZeroDivisionError,
+            struct.error,
+        ) as e:
+            # an entry of the encryption dictionary (or of /ID) is missing or
+            # is not what the security handler can compute with
+            raise PDFEncryptionError(
+                f"Invalid encryption dictionary: {type(e).__name__}: {e}"
+            ) from e
         self.decipher = handler.decrypt
         self.is_printable = handler.is_printable()
         self.is_modifiable = handler.is_modifiable()
